@@ -350,6 +350,7 @@ void sched_point(Op op, const void* obj, bool changes_state) {
     return;
   }
   R.step++;
+  R.plain_since_step = 0;
   me->steps++;
   hash_fold((uint64_t)me->id * 131 + op);
   note_obj(obj, me->id);
@@ -359,7 +360,7 @@ void sched_point(Op op, const void* obj, bool changes_state) {
     describe_threads(buf, sizeof buf);
     end_run_with_verdict(USIM_V_LIVELOCK, "sim.livelock", buf);
   }
-  if (R.timer_first) {
+  if (R.fault_rate[USIM_F_TIMER_FIRST] || (R.replay && R.faults.size())) {
     uint64_t d;
     if (earliest_deadline(&d) && fault(USIM_F_TIMER_FIRST)) advance_clock();
   }
